@@ -386,10 +386,30 @@ theorem cast_canonical (x : Flt) (tgt : Sem) (hT : tgt.WF) (hx : x.Canonical) :
 
 theorem scale_canonical (x : Flt) (k : Int) (rm : RM) (hF : x.sem.WF) (hx : x.Canonical) :
     (x.scale k rm).Canonical ∧ (x.scale k rm).sem = x.sem := by
-  unfold Flt.scale
+  unfold Flt.scale Flt.scaleCore
   split
   · exact ⟨hx, rfl⟩
   · exact ⟨new_normalize_canonical _ _ _ _ _ _ hF, new_normalize_sem _ _ _ _ _ _⟩
+
+/-- within `±scaleSpan` the clamp of `scale` is the identity -/
+theorem scale_eq_core (x : Flt) (k : Int) (rm : RM) (h1 : -x.sem.scaleSpan ≤ k) (h2 : k ≤ x.sem.scaleSpan) :
+    x.scale k rm = x.scaleCore k rm := by
+  unfold Flt.scale
+  rw [show max (-x.sem.scaleSpan) (min x.sem.scaleSpan k) = k by omega]
+
+/-- the clamp bound of `scale` is at least 4 in every well-formed format -/
+theorem Sem.scaleSpan_ge {s : Sem} (h : s.WF) : 4 ≤ s.scaleSpan := by
+  unfold Sem.scaleSpan
+  have h1 := Sem.emin_le_emax h
+  have h2 := h.2
+  have : s.emin < s.emax := by
+    have := Sem.emax_pos h; have := Sem.emin_le_zero h; omega
+  omega
+
+/-- small scale amounts (every constant the crate itself uses) are never clamped -/
+theorem scale_small (x : Flt) (k : Int) (rm : RM) (hF : x.sem.WF) (h1 : -4 ≤ k) (h2 : k ≤ 4) :
+    x.scale k rm = x.scaleCore k rm :=
+  scale_eq_core x k rm (by have := Sem.scaleSpan_ge hF; omega) (by have := Sem.scaleSpan_ge hF; omega)
 
 theorem fromBigint_canonical (sem : Sem) (v : Nat) (hF : sem.WF) :
     (fromBigint sem v).Canonical ∧ (fromBigint sem v).sem = sem :=
